@@ -139,7 +139,7 @@ def expected_ar(rec, succ, lo, hi, std, N):
     return min(1.0, math.exp(min(lr, 50.0)))
 
 
-def run(seed, tier):
+def run(seed, tier, pid='C11'):
     thorough = tier == 'thorough'
     rng = random.Random(seed * 982451653 + 11)
     out = core.Outcome()
@@ -200,7 +200,7 @@ def run(seed, tier):
                     what='transdimensional step %d -> %d active components of %d (beta %.3g): accepted with probability %.10g, reversibility for '
                          'f/C requires %.10g' % (k, k2, N, rec['beta'], rec['ar'], want),
                     replay=dict(config=cfg, kstd=kstd, iteration=it, current=cur, proposed=prop, recorded=rec['ar'], required=want)))
-    failing = core.run_coq_cases('C11', HEADER, terms, per_file=300)
+    failing = core.run_coq_cases(pid, HEADER, terms, per_file=300)
     codes = {1: 'forward composite density', 2: 'reverse composite density', 3: 'acceptance ratio'}
     for f in failing[:10]:
         out.corr_failures.append(dict(note='model and implementation disagree on the ' + codes.get(f[1], '?'), case=metas[f[0]]))
@@ -215,7 +215,7 @@ def run(seed, tier):
         mp.bit_generator = numpy.random.PCG64(1)
         return mp, 'k', bool(c['successive']), 0, c['td_n']
     jterms, jmetas = dens.index_jump_cases(rng, out, make, 24 if thorough else 6)
-    failing = core.run_coq_cases('C11', dens.HEADER, jterms, per_file=300, tag='indexjump')
+    failing = core.run_coq_cases(pid, dens.HEADER, jterms, per_file=300, tag='indexjump')
     for f in failing[:10]:
         out.corr_failures.append(dict(note='the index proposal does not jump by the redraw rule whose law enters the ratio (bd_jump1 / bd_logpmf1)',
                                       case=jmetas[f[0]]))
